@@ -104,7 +104,7 @@ func (s *Server) rejectPrivateAndLoopbackIPAction(_ context.Context, in egress.I
 	if len(ip) == 0 && req.DstAddr.FQDN != "" {
 		// If we do a DNS lookup, we leak the destination domain name to the DNS server.
 		// For user privacy, we only check some well-known local domain names.
-		domainName := req.DstAddr.FQDN
+		domainName := strings.ToLower(req.DstAddr.FQDN)
 		isWellKnownIPv4LocalDomainName := false
 		isWellKnownIPv6LocalDomainName := false
 		for _, d := range wellKnownIPv4LocalDomainNames {
@@ -129,19 +129,20 @@ func (s *Server) rejectPrivateAndLoopbackIPAction(_ context.Context, in egress.I
 			}
 		}
 	} else if len(ip) == 0 {
-		return egress.Action{
-			Action: appctlpb.EgressAction_DIRECT,
-		}
+		// An empty host is dialed as the local host.
+		ip = net.ParseIP("127.0.0.1")
 	}
 
-	if !ip.IsPrivate() && !ip.IsLoopback() {
+	// The unspecified address (0.0.0.0 or ::) is dialed as the local host.
+	isLoopback := ip.IsLoopback() || ip.IsUnspecified()
+	if !ip.IsPrivate() && !isLoopback {
 		return egress.Action{
 			Action: appctlpb.EgressAction_DIRECT,
 		}
 	}
 
 	// For testing propose, allow bypassing the user check below.
-	if ip.IsLoopback() && s.config.AllowLoopbackDestination {
+	if isLoopback && s.config.AllowLoopbackDestination {
 		return egress.Action{
 			Action: appctlpb.EgressAction_DIRECT,
 		}
@@ -168,7 +169,7 @@ func (s *Server) rejectPrivateAndLoopbackIPAction(_ context.Context, in egress.I
 		return egress.Action{
 			Action: appctlpb.EgressAction_DIRECT,
 		}
-	} else if ip.IsLoopback() && user.GetAllowLoopbackIP() {
+	} else if isLoopback && user.GetAllowLoopbackIP() {
 		return egress.Action{
 			Action: appctlpb.EgressAction_DIRECT,
 		}
